@@ -90,6 +90,13 @@ CHECKS = {
         "Termination = answer within 5 s (re-confirmed 50 s in a fresh process) for inputs <= 8 KB. Corpus in corpus/specs (tools/mkcorpus.py).",
         "DESIGN.md section 5, C12",
     ),
+    "C13": (
+        "translation validation by differential testing: generated (grammar, lexer, settings) pairs are compiled by the real compile-time builders inside one cargo build, the resulting binary compares the generated modules with the run-time pipeline on generated inputs",
+        "translation_validation",
+        "Per generated program (pair): same lexemes, same value/tree, same errors with the same repair sets, same token_epp and R_*/N_* constants; user actions ($1..$n as Ok/Err, $span, $lexer, $$) validated against a native evaluation of the same action template; settings (yacckind, recoverer, serialisation format, edition, visibility, lexer flags via builder or header) sampled.",
+        "Trusted: the batch crate's glue (engine/ctbatch), rustc. With several equally ranked repairs only results up to the first error are compared. Storage type u32 only.",
+        "DESIGN.md section 5, C13",
+    ),
     "C14": (
         "property-based testing: serialise/reconstitute round trip compared through a digest of every public query plus parse results",
         "exploration",
